@@ -216,7 +216,7 @@ P("C11", "proof", "Lean 4 theorems for both encodings (render lemma: pushing the
   "(unix_normalize_keeps_root), and normalising again returns the same bytes (unix_normalize_idempotent). "
   "Proved in Lean for every Windows path that does not start like a prefix or has a complete disk / device-namespace / "
   "UNC prefix, and whose names contain no `:`: the same four statements (C11b.win_normalize_comps, "
-  "win_normalize_no_dots, win_normalize_keeps_head — prefix and root are kept —, win_normalize_idempotent, byte for byte). Windows paths with a complete VERBATIM prefix (followed by nothing or a separator) and portable names: the same (C12d.win_normalize_verbatim, win_normalize_verbatim_no_dots), via the render-then-parse lemma for the component buffer that push rebuilds.",
+  "win_normalize_no_dots, win_normalize_keeps_head — prefix and root are kept —, win_normalize_idempotent, byte for byte). Windows paths with a complete VERBATIM prefix (followed by nothing or a separator) and portable names: the same (C12d.win_normalize_verbatim, win_normalize_verbatim_no_dots), via the render-then-parse lemma for the component buffer that push rebuilds. absolutize (C11c; the current directory is a parameter of the model and travels in the `abs` op line): Unix — absolute, free of `.` / `..` and idempotent whenever the current directory is absolute, and for a relative path the fold of the current directory's components followed by the path's (unix_absolutize_absolute, unix_absolutize_relative, unix_absolutize_idempotent); Windows — the same fold for a covered current directory and a relative prefix-free path (win_absolutize_relative).",
   "Partial: paths that start like a prefix without forming a complete one, and verbatim-disk prefixes directly followed "
   "by a name (`\\\\?\\C:x`), are decided by the oracle (fold computed independently on the "
   "implementation's components, second normalisation compared byte for byte, separator scan) on a component-level "
